@@ -28,6 +28,8 @@ ASSUMPTIONS = [
 ]
 
 SHARED = ["shared", "common", "v", "w"]
+# names that hold the selector character themselves (legal when quoted)
+AT_NAMES = ["me@host", "@types/node", "a@@b"]
 
 
 def make_doc(rng):
@@ -45,6 +47,17 @@ def make_doc(rng):
             if rng.random() < 0.3:
                 w[1].append(canon.Entry("nested", ["box"], sub=canon.SetNode(
                     entries=[canon.Entry("plain", ["inner"], value=g.value())], inline=True)))
+            if rng.random() < 0.2:
+                w[1].append(canon.Entry("quoted", [rng.choice(AT_NAMES)], value=g.value()))
+    # layers whose text is identical (`let a = 1; in let a = 1; in ...`, a/b/a chains): equal is
+    # not the same layer
+    lets = [i for i, w in enumerate(d.wrappers) if w[0] == "let"]
+    if len(lets) >= 2 and rng.random() < 0.25:
+        import copy
+        i, j = rng.sample(lets, 2)
+        d.wrappers[j] = ("let", copy.deepcopy(d.wrappers[i][1]))
+    if rng.random() < 0.1 and not any(e.path[:1] == [AT_NAMES[0]] for e in d.target.entries):
+        d.target.entries.append(canon.Entry("quoted", [AT_NAMES[0]], value=g.value()))
     # ... and in the body itself: `@name` must still address the let layer
     for nm in SHARED:
         if rng.random() < 0.35 and not any(e.path[:1] == [nm] for e in d.target.entries):
@@ -65,6 +78,8 @@ def choose(rng, dv):
     if k < 0.3 and layer_names:
         return E.Op("set", at + E.spell(rng.choice(layer_names)), val, "scope-replace")
     if k < 0.45:
+        if rng.random() < 0.15:
+            return E.Op("set", at + M.quote_segment(rng.choice(AT_NAMES)), val, "scope-fresh")
         return E.Op("set", at + "fresh" + str(rng.randrange(50)), val, "scope-fresh")
     if k < 0.55 and other:
         return E.Op("set", at + E.spell(rng.choice(other)), val, "scope-other-layer-name")
